@@ -472,10 +472,13 @@ package nfa
 //@   loop 1: decreases rangelen - rangeindex
 
 //@ uninterpreted spec func pvFoundAt(p *PikeVM, h []byte, at int) bool
+//@ uninterpreted spec func pvSpanStart(p *PikeVM, h []byte, at int) int
+//@ uninterpreted spec func pvSpanEnd(p *PikeVM, h []byte, at int) int
 //@ trusted func (*PikeVM).SearchAt
 //@   requires p != nil
 //@   modifies family H:nfa.PikeVM, family E:nfa.searchThread, family E:int, family E:uint32, family H:internal/sparse.SparseSet
 //@   ensures result2 == pvFoundAt(p, haystack, at)
+//@   ensures result2 ==> result0 == pvSpanStart(p, haystack, at) && result1 == pvSpanEnd(p, haystack, at)
 //@ trusted func (*PikeVM).IsMatch
 //@   requires p != nil
 //@   modifies family H:nfa.PikeVM, family E:nfa.searchThread, family E:int, family E:uint32, family H:internal/sparse.SparseSet
